@@ -130,6 +130,7 @@ pub struct Classes {
     pub nodes_released: u32,
     pub state_dropped_in_the_middle: u32,
     pub siblings_cut_short: u32,
+    pub swarmed: bool,
 }
 
 #[derive(Clone, Debug)]
@@ -1347,11 +1348,11 @@ impl<'p> Harness<'p> {
         let live_obs: Vec<usize> = (0..self.obs.len()).filter(|i| self.obs[*i].alive > 0).collect();
         let usable_obs: Vec<usize> = live_obs.iter().copied().filter(|i| matches!(self.obs[*i].state, OState::Created | OState::InUse)).collect();
         let active_subs: Vec<usize> = (0..self.subs.len()).filter(|i| self.subs[*i].token.is_some()).collect();
-        let room = (self.classes.nodes as usize) < p.max_nodes;
+        let room = (self.classes.nodes as usize) < p.max_nodes && !(p.freeze_structure && self.classes.stabilises > 0 && !ln.is_empty());
         let has_inner = p.grab_inner && build::INNER.with(|i| !i.borrow().is_empty());
         let w = [
             if (self.classes.stabilises as usize) < p.max_stabilises { 10 } else { 0 }, // 0 stabilise
-            if room && lv.len() < 5 { if lv.is_empty() { 30 } else { 4 } } else { 0 },   // 1 new var
+            if room && lv.len() < p.max_vars { if lv.is_empty() { 30 } else { 4 } } else { 0 }, // 1 new var
             if room { 12 } else { 0 },                                                   // 2 new node
             if lv.is_empty() { 0 } else { 12 },                                          // 3 write
             if ln.is_empty() { 0 } else { 9 },                                           // 4 observe
@@ -1706,7 +1707,10 @@ pub fn run_case_fault(
     fault_at: Option<u64>,
 ) -> CaseResult {
     let mut ch = Choices::new(bytes);
+    let swarmed = crate::lang::swarm(prof, &mut ch);
+    let prof = &swarmed;
     let mut h = Harness::new(prof);
+    h.classes.swarmed = prof.swarmed;
     h.audit = audit;
     if let Some(k) = fault_at {
         trace::set_fault_at(k);
